@@ -11,4 +11,6 @@ pub mod c02;
 #[cfg(kani)]
 pub mod c04;
 #[cfg(kani)]
+pub mod c07;
+#[cfg(kani)]
 pub mod c16;
